@@ -756,6 +756,7 @@ def rule_T3(ctx, rid='T3', view=False):
     if view:      # the view flag as an interface (C12 only): value domain, request in run()
         _rule_T3_domain(ctx, S, rid)
         _rule_T3_request(ctx, S, rid)
+        _rule_T3_validated_early(ctx, S, rid)
     # update_shell_info is a pure recomputation: reads of its outputs follow its own writes
     f = prog.func('Sampler.update_shell_info')
     cfg = cfg_of(f)
@@ -791,6 +792,95 @@ def rule_T3(ctx, rid='T3', view=False):
                'history, not only on the stored samples' % (
                    out_attr, [cfg.nodes[b].lineno for b in bad]))
     return n
+
+
+def _setter_type(f):
+    """(value parameter, type name) if setter `f` raises unless isinstance(value, T)."""
+    val = [p_ for p_ in f.params if p_ != f.self_name]
+    if not val:
+        return None, None
+    cfg = cfg_of(f)
+    for t in cfg.nodes:
+        if t.kind != 'test' or t.expr is None:
+            continue
+        e = t.expr
+        neg = False
+        while isinstance(e, ast.UnaryOp) and isinstance(e.op, ast.Not):
+            neg, e = not neg, e.operand
+        if isinstance(e, ast.Call) and dotted(e.func) == 'isinstance' and len(e.args) == 2 and \
+                isinstance(e.args[0], ast.Name) and e.args[0].id == val[0] and \
+                isinstance(e.args[1], ast.Name):
+            rej = [s_ for s_, lab in t.succ if lab == (True if neg else False)]
+            for s_ in rej:
+                for r_ in {s_} | set(cfg.reach(s_)):
+                    if cfg.nodes[r_].kind == 'stmt' and isinstance(cfg.nodes[r_].ast, ast.Raise):
+                        return val[0], e.args[1].id
+    return None, None
+
+
+def _rule_T3_validated_early(ctx, S, rid):
+    """A stepping method hands its argument to a setter that rejects wrong types by raising.
+    If that happens in the middle of a phase transition, the exception leaves the transition
+    half done (records removed, phase flag set, checkpoint not written).  So the method has to
+    reject the argument itself before it writes any state."""
+    for name, f in sorted(S.methods.items()):
+        if f.kind != 'setter':
+            continue
+        val, tname = _setter_type(f)
+        if tname is None:
+            continue
+        prop = name.split('.')[0]
+        for gname, g in sorted(S.methods.items()):
+            if g.kind in ('setter', 'property') or prop not in g.params:
+                continue
+            cfg = cfg_of(g)
+            stores = [nn for nn in cfg.nodes if nn.kind == 'stmt' and
+                      isinstance(nn.ast, ast.Assign) and len(nn.ast.targets) == 1 and
+                      dotted(nn.ast.targets[0]) == '%s.%s' % (g.self_name, prop) and
+                      any(isinstance(x, ast.Name) and x.id == prop
+                          for x in ast.walk(nn.ast.value))]
+            if not stores:
+                continue
+            checks = []
+            for t in cfg.nodes:
+                if t.kind != 'test' or t.expr is None:
+                    continue
+                e, neg = t.expr, False
+                while isinstance(e, ast.UnaryOp) and isinstance(e.op, ast.Not):
+                    neg, e = not neg, e.operand
+                if isinstance(e, ast.Call) and dotted(e.func) == 'isinstance' and \
+                        len(e.args) == 2 and isinstance(e.args[0], ast.Name) and \
+                        e.args[0].id == prop and unparse(e.args[1]) == tname:
+                    rej = [s_ for s_, lab in t.succ if lab == (True if neg else False)]
+                    if any(cfg.nodes[r_].kind == 'stmt' and isinstance(cfg.nodes[r_].ast, ast.Raise)
+                           for s_ in rej for r_ in {s_} | set(cfg.reach(s_))):
+                        checks.append(t.id)
+            writers = []
+            for nn in cfg.nodes:
+                if nn.kind != 'stmt' or nn.ast is None or nn in stores:
+                    continue
+                w = False
+                if isinstance(nn.ast, (ast.Assign, ast.AugAssign)):
+                    tg = nn.ast.targets if isinstance(nn.ast, ast.Assign) else [nn.ast.target]
+                    w = any(root_attr(t_, g.self_name) for t_ in tg)
+                elif isinstance(nn.ast, ast.Expr) and isinstance(nn.ast.value, ast.Call):
+                    d = dotted(nn.ast.value.func) or ''
+                    w = d.startswith('%s.' % g.self_name) and not d.endswith('print_status')
+                if w and any(cfg.can_reach(nn.id, st.id) for st in stores):
+                    writers.append(nn.id)
+            ok = any(all(cfg.dominates(c_, w_) for w_ in writers) and
+                     all(cfg.dominates(c_, st.id) for st in stores) for c_ in checks)
+            ctx.ob(rid, '%s:%s-validated-before-any-write' % (g.qualname, prop), ok,
+                   g.where(stores[0].ast),
+                   'the argument is rejected (isinstance(.., %s)) before %s() writes any state'
+                   % (tname, g.name) if ok else
+                   '`%s` can raise (the setter rejects everything but %s, e.g. a numpy.bool_ '
+                   'from np.any(..)) after %d state writes of %s() that precede it - at the end '
+                   'of exploration: empty shells removed, explored = True - and before the '
+                   'checkpoint is rewritten: the sampler in memory has finished exploring, the '
+                   'file has not, and the next incremental update writes shell arrays of the '
+                   'new length next to the old shells' % (
+                       unparse(stores[0].ast)[:50], tname, len(writers), g.name))
 
 
 def _rule_T3_request(ctx, S, rid):
@@ -1128,6 +1218,11 @@ def rule_T5(ctx, rid='T5'):
     ctx.ob(rid, 'Sampler.run:idle-iteration-is-pure', not bad_zero, run.where(W.ast),
            'an iteration that adds no batch changes no state' if not bad_zero else
            'an iteration without a batch still changes state at lines %s' % sorted(set(bad_zero)))
+    # ... and it ends the loop: the branch facts of a path without a batch entail the success
+    # predicate, whatever the estimators evaluate to -- `not (x < t)` does NOT entail `x >= t`
+    # for a floating-point estimator (both are false for NaN), so a dispatch that relies on it
+    # can spin for ever without evaluating anything and without touching the budget
+    _rule_T5_progress(ctx, rid, run, cfg, W, zero, svar)
     # (d) add_samples evaluates exactly one batch on every path
     f = prog.func('Sampler.add_samples')
     c2 = cfg_of(f)
@@ -1180,6 +1275,105 @@ def rule_T5(ctx, rid='T5'):
            'run() returns the success predicate' if okr else
            'run() does not return the success predicate')
     return len(paths)
+
+
+INT_COUNTERS = {'self.shell_n', 'self.shell_n_sample', 'self.n_like'}
+
+
+def _rule_T5_progress(ctx, rid, run, cfg, W, zero, svar):
+    from .cfg import edge_facts
+    inl = [n for n in cfg.nodes if n.kind == 'stmt' and isinstance(n.ast, ast.Assign) and
+           isinstance(n.ast.targets[0], ast.Name) and n.ast.targets[0].id == svar and
+           cfg.can_reach(n.id, W.id) and cfg.can_reach(W.id, n.id)]
+    ctx.require(inl, 'Sampler.run: the success flag is not recomputed inside the loop')
+    cjs = _conjuncts(inl[0].ast.value)
+
+    def entailed(cj, facts):
+        """(ok, why-not) -- does the fact set entail conjunct cj for every value, NaN included?"""
+        txt = unparse(cj)
+        if (txt, True) in facts:
+            return True, None
+        # np.all(A >= B) from not np.any(A < B): element-wise complement, fine for counters
+        if isinstance(cj, ast.Call) and dotted(cj.func) in ('np.all', 'all') and cj.args and \
+                isinstance(cj.args[0], ast.Compare) and len(cj.args[0].ops) == 1:
+            c = cj.args[0]
+            comp = {ast.GtE: ast.Lt, ast.Gt: ast.LtE, ast.LtE: ast.Gt, ast.Lt: ast.GtE}
+            want = comp.get(type(c.ops[0]))
+            for ft, tr in facts:
+                if tr is not False:
+                    continue
+                try:
+                    fe = ast.parse(ft, mode='eval').body
+                except SyntaxError:
+                    continue
+                if isinstance(fe, ast.Call) and dotted(fe.func) in ('np.any', 'any') and fe.args \
+                        and isinstance(fe.args[0], ast.Compare) and len(fe.args[0].ops) == 1 and \
+                        want is not None and isinstance(fe.args[0].ops[0], want) and \
+                        unparse(fe.args[0].left) == unparse(c.left) and \
+                        unparse(fe.args[0].comparators[0]) == unparse(c.comparators[0]):
+                    if dotted(c.left) in INT_COUNTERS:
+                        return True, None
+                    return False, ('`%s` is not an integer counter: the element-wise complement '
+                                   'fails for NaN' % unparse(c.left))
+        if isinstance(cj, ast.Compare) and len(cj.ops) == 1:
+            comp = {ast.GtE: ast.Lt, ast.Gt: ast.LtE, ast.LtE: ast.Gt, ast.Lt: ast.GtE}
+            want = comp.get(type(cj.ops[0]))
+            # a known strict comparison gives the weak one (true comparisons exclude NaN)
+            strict = {ast.GtE: ast.Gt, ast.LtE: ast.Lt}.get(type(cj.ops[0]))
+            for ft, tr in facts:
+                if tr is not True or strict is None:
+                    continue
+                try:
+                    fe = ast.parse(ft, mode='eval').body
+                except SyntaxError:
+                    continue
+                if isinstance(fe, ast.Compare) and len(fe.ops) == 1 and \
+                        isinstance(fe.ops[0], strict) and \
+                        unparse(fe.left) == unparse(cj.left) and \
+                        unparse(fe.comparators[0]) == unparse(cj.comparators[0]):
+                    return True, None
+            for ft, tr in facts:
+                if tr is not False:
+                    continue
+                try:
+                    fe = ast.parse(ft, mode='eval').body
+                except SyntaxError:
+                    continue
+                if isinstance(fe, ast.Compare) and len(fe.ops) == 1 and want is not None and \
+                        isinstance(fe.ops[0], want) and \
+                        unparse(fe.left) == unparse(cj.left) and \
+                        unparse(fe.comparators[0]) == unparse(cj.comparators[0]):
+                    if dotted(cj.left) in INT_COUNTERS:
+                        return True, None
+                    return False, ('only `not (%s)` is known, which does not give `%s` when `%s` '
+                                   'is NaN (e.g. an effective sample size over shells whose '
+                                   'weights are all zero: exp(-inf - (-inf)))'
+                                   % (ft, txt, unparse(cj.left)))
+        return False, 'no branch condition of the path gives `%s`' % txt
+    k = 0
+    for p in zero:
+        facts = set()
+        for a_, b_ in zip(p, p[1:]):
+            na = cfg.nodes[a_]
+            if na.kind == 'test' and na.expr is not None:
+                for s_, lab in na.succ:
+                    if s_ == b_ and lab in (True, False):
+                        for atom, text, truth in edge_facts(na.expr, lab):
+                            facts.add((text, truth))
+        # the loop was entered: its own test held
+        why = []
+        for cj in cjs:
+            ok, w = entailed(cj, facts)
+            if not ok:
+                why.append(w)
+        k += 1
+        ctx.ob(rid, 'Sampler.run:idle-iteration-ends-the-loop', not why, run.where(W.ast),
+               'on the path through one iteration that evaluates no batch the branch conditions '
+               'entail the success predicate: the loop ends' if not why else
+               'an iteration can evaluate no batch and still leave `%s` false: %s; run() then '
+               'spins without calling the likelihood, n_like never reaches n_like_max and only a '
+               'timeout ends the call' % (svar, '; '.join(why)))
+    ctx.require(k >= 1 or not zero, 'T5: idle paths not analysed')
 
 
 def enumerate_paths_from(cfg, W, body):
